@@ -5,6 +5,8 @@ import (
 	"math"
 	"math/big"
 	"strings"
+	"sync"
+	"sync/atomic"
 	"unicode"
 
 	"go.flow.arcalot.io/pluginsdk/schema"
@@ -686,6 +688,14 @@ func runC16(c *wk.Ctx) {
 	total := int64(sweep) + int64(len(fixed)) + nGen
 	c.Meta("exhaustive", false)
 	c.Meta("cov.int_sweep", "every integer in [0,200000] for each of 8 unit sets, both formats (enumerated completely in both tiers)")
+	// first use of fresh definitions by several goroutines at once (each worker takes its share of the rounds)
+	perShard := int(c.N(500, 20000))
+	for k := int64(0); k < 16; k++ {
+		if c.Mine(k) {
+			c.Begin(k, "first use of fresh unit definitions by 8 goroutines")
+			unitsFirstUse(c, "C16", int(k)*perShard, int(k+1)*perShard, false)
+		}
+	}
 	c.Cases(total, func(idx int64, r *wk.Rand) {
 		switch {
 		case idx < sweep:
@@ -772,3 +782,94 @@ func runC16(c *wk.Ctx) {
 }
 
 func init() { register("C16", runC16) }
+
+// unitsFirstUse: a definition that nobody has used yet is used by 8 goroutines at once, parsers and formatters mixed
+// (their lazily built tables are filled on first use); every result must be what a twin definition, used by one
+// goroutine only, gives. With viaSchema the parsers go through IntSchema.Unserialize. A fatal runtime error (concurrent
+// map access) ends the worker and is attributed to the journalled case by the driver.
+func unitsFirstUse(c *wk.Ctx, prop string, from, to int, viaSchema bool) {
+	type op struct {
+		name string
+		run  func(d *schema.UnitsDefinition, t schema.Type) string
+	}
+	for i := from; i < to; i++ {
+		mk := func() (*refUnits, *schema.UnitsDefinition) {
+			return genUnits(wk.NewRand(c.Seed, prop+"-first-use", int64(i)), "fu")
+		}
+		ref, twin := mk()
+		if len(ref.mults) == 0 {
+			continue
+		}
+		_, fresh := mk()
+		vr := wk.NewRand(c.Seed, prop+"-first-use-values", int64(i))
+		var ops []op
+		for k := 0; k < 6; k++ {
+			v := vr.I64n(1 << 40)
+			if k == 0 {
+				v = 59
+			}
+			s1, s2 := twin.FormatShortInt(v), twin.FormatLongInt(v)
+			ops = append(ops,
+				op{fmt.Sprintf("FormatShortInt(%d)", v), func(d *schema.UnitsDefinition, _ schema.Type) string { return d.FormatShortInt(v) }},
+				op{fmt.Sprintf("FormatLongInt(%d)", v), func(d *schema.UnitsDefinition, _ schema.Type) string { return d.FormatLongInt(v) }})
+			for _, str := range []string{s1, s2, fmt.Sprint(v)} {
+				str := str
+				if viaSchema {
+					ops = append(ops, op{fmt.Sprintf("IntSchema.Unserialize(%q)", str), func(_ *schema.UnitsDefinition, t schema.Type) string {
+						r, err := t.Unserialize(str)
+						return fmt.Sprint(r, " ", err == nil)
+					}})
+				} else {
+					ops = append(ops, op{fmt.Sprintf("ParseInt(%q)", str), func(d *schema.UnitsDefinition, _ schema.Type) string {
+						r, err := d.ParseInt(str)
+						return fmt.Sprint(r, " ", err == nil)
+					}})
+				}
+			}
+		}
+		twinT := schema.NewIntSchema(nil, nil, twin)
+		freshT := schema.NewIntSchema(nil, nil, fresh)
+		want := make([]string, len(ops))
+		for k, o := range ops {
+			want[k] = o.run(twin, twinT)
+		}
+		c.Note(fmt.Sprintf("first use of a fresh units definition by 8 goroutines (round %d)", i))
+		const G = 8
+		var ready, wrong atomic.Int32
+		var firstWrong atomic.Value
+		var wg sync.WaitGroup
+		for g := 0; g < G; g++ {
+			wg.Add(1)
+			go func(g int) {
+				defer wg.Done()
+				defer func() {
+					if p := recover(); p != nil {
+						wrong.Add(1)
+						firstWrong.CompareAndSwap(nil, fmt.Sprintf("panic: %v", p))
+					}
+				}()
+				ready.Add(1)
+				for ready.Load() < G {
+				}
+				for k := range ops {
+					kk := (k + g*3) % len(ops)
+					if i%2 == 0 {
+						kk = (k + 2 + g%3) % len(ops) // every goroutine's first operation is a parse
+					}
+					if got := ops[kk].run(fresh, freshT); got != want[kk] {
+						wrong.Add(1)
+						firstWrong.CompareAndSwap(nil, fmt.Sprintf("%s = %s, a definition used by one goroutine gives %s", ops[kk].name, got, want[kk]))
+					}
+				}
+			}(g)
+		}
+		wg.Wait()
+		c.Count("first_use_rounds")
+		c.CountN("first_use_operations", int64(G*len(ops)))
+		c.Eval(wk.Hash64(prop, "first-use", fmt.Sprint(i)), true)
+		if wrong.Load() > 0 {
+			c.Violation(prop+":first-use-by-several-goroutines", fmt.Sprintf("%d of %d operations on a fresh units definition used by 8 goroutines at once differ from the same definition used by one; first: %v", wrong.Load(), G*len(ops), firstWrong.Load()),
+				map[string]any{"definition": ref.describe(), "round": i})
+		}
+	}
+}
